@@ -97,6 +97,14 @@ func (e *Engine) translate(u *Unit) {
 		}
 	}
 	x.assumeGlobalInvs()
+	// definitional axioms of abstract predicates (evaluated in the entry state)
+	for _, c := range u.contracts() {
+		env := x.unitEnv(fr0, c, x.st)
+		for _, cl := range c.clauses("axiom") {
+			x.sc.assume(x.evalBool(env, cl.expr()))
+			x.assumed["AXIOM "+c.Target+": "+cl.Text] = true
+		}
+	}
 	// watch scalar fields of pointer parameters in the pre-state
 	for i, p := range fn.Params {
 		if pv, ok := args[i].(*PtrV); ok && pv.Kind == PObj {
